@@ -138,6 +138,21 @@ func (p *Path) floatStub(name string, args []Value) (Value, bool) {
 			return mkStr(strconv.FormatFloat(a.cf, byte(fm.Int64()), int(pr.Int64()), int(bs.Int64()))), true
 		}
 		return mkUF(fmt.Sprintf("ff:%d:%d:%d", fm.Int64(), pr.Int64(), bs.Int64()), SStr, a.bits), true
+	case "strconv.FormatComplex":
+		a, isF := args[0].(FloatVal)
+		fm, ok1 := args[1].(*Term)
+		pr, ok2 := args[2].(*Term)
+		bs, ok3 := args[3].(*Term)
+		if !isF || !ok1 || !ok2 || !ok3 || !fm.IsConst() || !pr.IsConst() || !bs.IsConst() {
+			return nil, false
+		}
+		if bs.Int64() != 64 && bs.Int64() != 128 {
+			return nil, false // the real function panics
+		}
+		if a.isC {
+			return mkStr(strconv.FormatComplex(a.cc, byte(fm.Int64()), int(pr.Int64()), int(bs.Int64()))), true
+		}
+		return mkUF(fmt.Sprintf("fc:%d:%d:%d", fm.Int64(), pr.Int64(), bs.Int64()), SStr, a.bits, a.bits2), true
 	case "math.IsNaN":
 		a := args[0].(FloatVal)
 		if a.isC {
@@ -213,6 +228,20 @@ func floatNativeUF(name string) func(args []string) (string, bool) {
 				return "", false
 			}
 			return "s:" + strconv.FormatFloat(x, byte(fm), pr, bs), true
+		}
+	}
+	if len(name) > 3 && name[:3] == "fc:" {
+		var fm, pr, bs int
+		if _, err := fmt.Sscanf(name, "fc:%d:%d:%d", &fm, &pr, &bs); err != nil {
+			return nil
+		}
+		return func(a []string) (string, bool) {
+			x, ok1 := bitsToF64(a[0], types.Float64)
+			y, ok2 := bitsToF64(a[1], types.Float64)
+			if !ok1 || !ok2 {
+				return "", false
+			}
+			return "s:" + strconv.FormatComplex(complex(x, y), byte(fm), pr, bs), true
 		}
 	}
 	if len(name) > 3 && name[:3] == "fp:" {
